@@ -131,6 +131,9 @@ func availOf(s []Ev) int {
 	return n
 }
 
+// cleanName is the path, relative to the working directory, a file-store name resolves to
+func cleanName(name string) string { return filepath.ToSlash(filepath.Clean(name)) }
+
 func hasFail(s []Ev) bool {
 	for _, e := range s {
 		if e.Kind == 'F' {
@@ -266,7 +269,11 @@ func (c *Case) body() string {
 		var sb strings.Builder
 		fmt.Fprintf(&sb, "%s %s %d", c.Op, c.Kind, len(c.Pushes))
 		for _, p := range c.Pushes {
-			fmt.Fprintf(&sb, " %s %s %s %d %s %s", common.Hex(p.Name), common.Hex(p.MT), common.Hex(p.DG), p.SZ, b2s(p.Comb), encScript(p.Script))
+			nm := common.Hex(p.Name)
+			if p.Name != "" { // the model takes the resolved path (path/filepath is not modelled)
+				nm += ":" + common.Hex(cleanName(p.Name))
+			}
+			fmt.Fprintf(&sb, " %s %s %s %d %s %s", nm, common.Hex(p.MT), common.Hex(p.DG), p.SZ, b2s(p.Comb), encScript(p.Script))
 		}
 		return sb.String()
 	}
@@ -324,7 +331,7 @@ func decodeBody(body string) *Case {
 		n := int(atoi(f[2]))
 		for i := 0; i < n; i++ {
 			g := f[3+6*i:]
-			c.Pushes = append(c.Pushes, Push{Name: common.UnHex(g[0]), MT: common.UnHex(g[1]), DG: common.UnHex(g[2]),
+			c.Pushes = append(c.Pushes, Push{Name: common.UnHex(strings.SplitN(g[0], ":", 2)[0]), MT: common.UnHex(g[1]), DG: common.UnHex(g[2]),
 				SZ: atoi(g[3]), Comb: g[4] == "1", Script: decScript(g[5])})
 		}
 	default:
@@ -699,8 +706,35 @@ func runST(id string, c *Case) string {
 	defer e.close()
 	var obs []string
 	var accepted [][]byte // ground-truth bytes of the pushes that returned nil
+	// file store: names are compared as strings but written as paths.  owners: the
+	// successful named pushes per resolved path; clobbered: digests whose file was
+	// rewritten or removed by a push under ANOTHER name of the same path (known
+	// finding file-alias-clobbers-visible; matched by this mechanism only)
+	type owner struct {
+		name string
+		d    ocispec.Descriptor
+		want []byte
+	}
+	owners := map[string][]owner{}
+	clobbered := map[string]bool{}
+	const aliasSig = "file-alias-clobbers-visible"
+	isFile := strings.HasPrefix(c.Kind, "file")
 	for i, p := range c.Pushes {
 		d := descOf(p)
+		aliasHit := false
+		if isFile && p.Name != "" {
+			for _, o := range owners[cleanName(p.Name)] {
+				if o.name != p.Name {
+					aliasHit = true
+				}
+			}
+		}
+		vf := func(sig, msg string) {
+			if aliasHit || clobbered[p.DG] {
+				sig = aliasSig
+			}
+			fail(id, sig, msg, c)
+		}
 		_, xBefore := existsStr(e.st, d)
 		lBefore := joinListing(e.listing())
 		err := e.st.Push(ctx, d, newReader(p))
@@ -730,24 +764,40 @@ func runST(id string, c *Case) string {
 				want := st[:p.SZ]
 				accepted = append(accepted, want)
 				if !xAfter {
-					fail(id, "pushed-not-visible", tag+"Push returned nil but Exists is false", c)
+					vf("pushed-not-visible", tag+"Push returned nil but Exists is false")
 				}
 				if rerr != nil || !bytes.Equal(raw, want) {
-					fail(id, "pushed-differs", tag+"Push returned nil but Fetch does not return the first Size bytes of the reader", c)
+					vf("pushed-differs", tag+"Push returned nil but Fetch does not return the first Size bytes of the reader")
 				}
 				if ferr != nil {
-					fail(id, "pushed-fetchall-fails", tag+"Push returned nil but FetchAll fails: "+fobs, c)
+					vf("pushed-fetchall-fails", tag+"Push returned nil but FetchAll fails: "+fobs)
 				}
 			}
 		} else {
 			if xAfter != xBefore {
-				fail(id, "failed-push-visible", tag+"Push failed ("+res+") but Exists changed from "+b2s(xBefore)+" to "+b2s(xAfter), c)
+				vf("failed-push-visible", tag+"Push failed ("+res+") but Exists changed from "+b2s(xBefore)+" to "+b2s(xAfter))
 			}
 			if !xBefore && rerr == nil && !(c.Kind == "file" && false) {
-				fail(id, "failed-push-fetchable", tag+"Push failed ("+res+") but Fetch succeeds", c)
+				vf("failed-push-fetchable", tag+"Push failed ("+res+") but Fetch succeeds")
 			}
 			if lAfter != lBefore { // (file store: the partial file of a failed push is removed again)
-				fail(id, "failed-push-stored", tag+"Push failed ("+res+") but the stored blobs changed: "+lBefore+" -> "+lAfter, c)
+				vf("failed-push-stored", tag+"Push failed ("+res+") but the stored blobs changed: "+lBefore+" -> "+lAfter)
+			}
+		}
+		if isFile && p.Name != "" {
+			path := cleanName(p.Name)
+			for _, o := range owners[path] {
+				if o.name == p.Name {
+					continue
+				}
+				if got, gerr := rawFetch(e.st, o.d); gerr != nil || !bytes.Equal(got, o.want) {
+					clobbered[string(o.d.Digest)] = true
+					fail(id, aliasSig, tag+fmt.Sprintf("a push under the name %q (result %s) changed what Fetch serves for the descriptor pushed under %q (same path %q): %d bytes, err=%v",
+						p.Name, res, o.name, path, len(got), gerr), c)
+				}
+			}
+			if err == nil && why == "" {
+				owners[path] = append(owners[path], owner{name: p.Name, d: d, want: st[:p.SZ]})
 			}
 		}
 		if n := e.ingest(); n > 0 {
@@ -762,17 +812,17 @@ func runST(id string, c *Case) string {
 				}
 			}
 			if !okv {
-				fail(id, "visible-unverified", tag+fmt.Sprintf("Fetch returns %d bytes that no successful Push delivered", len(raw)), c)
+				vf("visible-unverified", tag+fmt.Sprintf("Fetch returns %d bytes that no successful Push delivered", len(raw)))
 			}
 			if okDigest.MatchString(p.DG) {
 				hx, _ := shaHex(algOf(p.DG), raw)
 				if algOf(p.DG)+":"+hx != p.DG {
-					fail(id, "visible-digest-mismatch", tag+"Fetch returns bytes that do not hash to the descriptor's digest", c)
+					vf("visible-digest-mismatch", tag+"Fetch returns bytes that do not hash to the descriptor's digest")
 				}
 			}
 		}
 		if ferr == nil && !matches(fb, p.DG, p.SZ) {
-			fail(id, "fetchall-accepted-bad", tag+"FetchAll returned bytes not matching the descriptor", c)
+			vf("fetchall-accepted-bad", tag+"FetchAll returned bytes not matching the descriptor")
 		}
 	}
 	final := "B=" + joinListing(e.listing())
@@ -1260,7 +1310,10 @@ func genPush(r *common.Rand, data []byte) Push {
 }
 
 func genName(r *common.Rand) string {
-	return common.Pick(r, []string{"a", "b", "data.bin", "x1", "layer.tar"})
+	if r.Chance(1, 4) { // a second spelling of one of the plain names (same resolved path)
+		return common.Pick(r, []string{"./a", "x/../a", "sub/../b", "./data.bin", "./x1", "a/.", "sub/./f", "sub/f"})
+	}
+	return common.Pick(r, []string{"a", "b", "data.bin", "x1", "layer.tar", "sub/f"})
 }
 
 func genHistory(r *common.Rand, kind string) *Case {
